@@ -59,7 +59,7 @@ COVERAGE_TARGETS = [f'rej:{k}:{r}:{e}' for k, e in (('plain', 'ValueError'), ('r
                     for r in ('set', 'update', 'ctxEnter')] + \
                    ['rej:gen:set:TypeError', 'rej:gen:setCls:TypeError', 'rej:gen:update:TypeError', 'rej:gen:ctxEnter:TypeError',
                     'update:ev:first:ValueError', 'update:ev:last:ValueError', 'update:ev:first:TypeError', 'update:ev:first:ok',
-                    'ctxEnter:ev:first:ok', 'srcSet:rejected-sync', 'trigger:ok', 'event-watchers', 'rej:locked:set:TypeError', 'rej:locked:update:TypeError', 'lock:ok', 'nsread-validators', 'falsy-sources', 'hooks',
+                    'ctxEnter:ev:first:ok', 'srcSet:rejected-sync', 'setClsX:ValueError', 'trigger:ok', 'event-watchers', 'rej:locked:set:TypeError', 'rej:locked:update:TypeError', 'lock:ok', 'nsread-validators', 'falsy-sources', 'hooks',
                     'shared:set:ref:ok', 'shared:set:plain:ValueError', 'shared:set:ref:ValueError',
                     'rej:plain:setCls:ValueError', 'rej:readonly:setCls:TypeError', 'rej:plain:later:update:ValueError',
                     'rej:ref:later:update:ValueError', 'set:plain:linked:ValueError', 'set:ref:linked:ValueError', 'set:ref:free:ValueError',
@@ -159,6 +159,12 @@ def directed():
         src[0][0] = bad
         ops += R.probe_suffix(rng, src, 2, 2, rounds=1)
         yield R.mk_case(PROP, src0, [{'params': [dict(p) for p in R.STD], 'ctor': [[3, ref], [1, R.par(1, 0)]]}], ops)
+    # rejected class-level assignments to parameters whose class-level state is delicate: an inherited default that is
+    # not equal to itself (NaN), a callable default (the class Parameter's `instantiate` flag)
+    for sub, which in itertools.product((False, True), ('nan', 'gen')):
+        yield R.mk_case(PROP, src0, [{'params': [dict(p) for p in R.STD], 'ctor': [[1, R.par(1, 0)]]}],
+                        [{'op': 'setClsX', 't': 0, 'which': which}, {'op': 'setCls', 't': 0, 'p': 0, 'rhs': R.lit(6), 'note': 'probe'},
+                         {'op': 'srcSet', 's': 1, 'i': 0, 'v': 2, 'note': 'probe'}, {'op': 'setClsX', 't': 0, 'which': which}], sub=sub)
     # a rejected assignment to the Event parameter made by one of its own watchers while it is dispatched (9d1d30e)
     for pre in ([], [{'op': 'set', 't': 0, 'p': 0, 'rhs': R.lit(50), 'note': 'rej:plain'}]):
         yield R.mk_case(PROP, src0, [{'params': [dict(p) for p in R.STD], 'ctor': [[1, R.par(1, 0)]]}],
